@@ -175,18 +175,14 @@ func (f *file) updateAnchors(ctx context.Context) error {
 	f.rootPEM = rootPEMs
 	f.bundle = x509bundle.FromX509Authorities(spiffeid.TrustDomain{}, trustAnchorCerts)
 
-	var wg sync.WaitGroup
-	defer wg.Wait()
-
-	wg.Add(len(f.subs))
+	// Signal the subscribers without blocking: we hold the write lock, and a
+	// subscriber whose signal buffer is full (it is slow, or it has left) already
+	// has signals pending and reads the current anchors when it handles them.
 	for _, ch := range f.subs {
-		go func(chi chan<- struct{}) {
-			defer wg.Done()
-			select {
-			case chi <- struct{}{}:
-			case <-ctx.Done():
-			}
-		}(ch)
+		select {
+		case ch <- struct{}{}:
+		default:
+		}
 	}
 
 	return nil
